@@ -110,16 +110,22 @@ func UnTarIndex(ctx context.Context, fs FilesystemWriter, index Index, s Store, 
 
 	// Feeder - requesting chunks from the workers and handing a result data channel
 	// to the assembler
+	// Set if the feeder stopped before it handed out all chunks, or the
+	// assembler before it wrote all of them
+	var interrupted, assemblyInterrupted bool
+
 	g.Go(func() error {
 	loop:
 		for _, c := range index.Chunks {
 			data := make(chan []byte, 1)
 			select {
 			case <-ctx.Done():
+				interrupted = true
 				break loop
 			case req <- requestJob{chunk: c, data: data}: // request the chunk
 				select {
 				case <-ctx.Done():
+					interrupted = true
 					break loop
 				case assemble <- data: // and hand over the data channel to the assembler
 				}
@@ -146,6 +152,7 @@ func UnTarIndex(ctx context.Context, fs FilesystemWriter, index Index, s Store, 
 					return err
 				}
 			case <-ctx.Done():
+				assemblyInterrupted = true
 				break loop
 			}
 		}
@@ -163,5 +170,14 @@ func UnTarIndex(ctx context.Context, fs FilesystemWriter, index Index, s Store, 
 		return err
 	})
 
-	return g.Wait()
+	if err := g.Wait(); err != nil {
+		return err
+	}
+	// Closing the pipe early looks like a regular end of the archive to UnTar
+	// if it happens between two elements, so nobody may have failed even
+	// though not all chunks were unpacked.
+	if interrupted || assemblyInterrupted {
+		return Interrupted{}
+	}
+	return nil
 }
